@@ -158,6 +158,10 @@ func (id *Ideal) MinimizeBasis() error {
 	}
 
 	id.isMinimal = 1
+	if id.isReduced == -1 {
+		// The generators have changed, so a negative answer may be outdated
+		id.isReduced = 0
+	}
 	return nil
 }
 
@@ -255,7 +259,8 @@ func (id *Ideal) IsReduced() (b bool) {
 
 	for i := range id.generators {
 		_, r, _ := id.generators[i].quoRemWithIgnore(i, id.generators...)
-		if r.IsNonzero() {
+		if !r.Equal(id.generators[i]) {
+			// Some term is divisible by the leading term of another generator
 			return false
 		}
 	}
